@@ -26,7 +26,7 @@ pub fn point13(i: u64) -> Point {
     let r = i / configs().len();
     let op = OPS13[r % OPS13.len()];
     let pop = POPS13[(r / OPS13.len()) % POPS13.len()];
-    Point { cfg: c.clone(), op, pop, checker: CheckerKind::None, bad_name: None, missing_dirs: false }
+    Point { cfg: c.clone(), op, pop, checker: CheckerKind::None, bad_name: None, missing_dirs: false, fault_scratch: false }
 }
 
 fn configs14() -> Vec<&'static Config> {
@@ -47,7 +47,7 @@ pub fn point14(i: u64) -> Point {
     let r = r / OPS14.len();
     let pop = POPS14[r % POPS14.len()];
     let checker = CHK14[(r / POPS14.len()) % CHK14.len()];
-    Point { cfg: c.clone(), op, pop, checker, bad_name: None, missing_dirs: false }
+    Point { cfg: c.clone(), op, pop, checker, bad_name: None, missing_dirs: false, fault_scratch: false }
 }
 
 pub struct C13;
@@ -56,7 +56,7 @@ impl Check for C13 {
         "C13"
     }
     fn rule(&self) -> String {
-        format!("the full matrix of {} points = write side {{none, plain, sharded}} x 0-2 read-only levels each plain/sharded x each level holding {{nothing, A, B}} x operation {{get, touch, ensure, get_or_update x {{Accept, Promote, Replace}}, set, put, set_temp_file, put_temp_file}} x populate outcome {{value C, NotFound, Other error}}, each point run on a fresh simulated filesystem (quick: 100 times; thorough: 5000 times) with swarm dimensions auto_sync, value sizes, atime policy, granularity, umask, judge read length and reader noise by a second process; judged against a reference model of the stack (returned bytes, judge argument, populate's old argument, before/after snapshots of every level). Every point is non-trivial; distinct = matrix point", n13())
+        format!("the full matrix of {} points = write side {{none, plain, sharded}} x 0-2 read-only levels each plain/sharded x each level holding {{nothing, A, B}} x operation {{get, touch, ensure, get_or_update x {{Accept, Promote, Replace}}, set, put, set_temp_file, put_temp_file}} x populate outcome {{value C, NotFound, Other error}}, each point run on a fresh simulated filesystem (quick: 100 times; thorough: 5000 times) with swarm dimensions auto_sync, value sizes, atime policy, granularity, umask, judge read length and reader noise by a second process; judged against a reference model of the stack (returned bytes, judge argument, populate's old argument, before/after snapshots of every level); one run in 200 is a concurrent run (stacked cache, read-only level pre-populated, peers putting/setting the same keys) in which every Replace must return exactly the value it populated. Every point is non-trivial; distinct = matrix point", n13())
     }
     fn runs(&self, tier: Tier) -> u64 {
         match tier {
@@ -68,6 +68,9 @@ impl Check for C13 {
         true
     }
     fn run(&self, tape: &mut Tape, ctx: &RunCtx) -> RunOut {
+        if tape.draw(200) == 199 {
+            return c13_concurrent(tape, ctx);
+        }
         let pt = point13(ctx.index % n13());
         to_runout(run_point(tape, &pt, ctx.detail), &["c13"], ctx.detail)
     }
@@ -76,13 +79,75 @@ impl Check for C13 {
     }
 }
 
+/// Concurrent ride-along: whatever peers do in the meantime, a
+/// get_or_update whose populate function was called with a Replace verdict
+/// (or on a miss) returns a complete value of the key, and a Replace returns
+/// exactly the value it populated ("Replace ... stores the newly populated
+/// value in the write cache and returns it").
+fn c13_concurrent(tape: &mut Tape, ctx: &RunCtx) -> RunOut {
+    use crate::conc::*;
+    use kismet_vfs::kernel::DrawPolicy;
+    let cfg = ConcCfg {
+        fronts: vec![2],
+        capacities: vec![1_000_000],
+        max_parts: 3,
+        max_ops: 3,
+        max_keys: 2,
+        ops: vec!["gou", "gou", "put", "set", "get", "ensure"],
+        adversary: false,
+        stale_mode: false,
+        freeze: false,
+        crash: false,
+        fire: vec![DrawPolicy::Const(u64::MAX)],
+        allow_shared_handle: true,
+        missing_dirs: false,
+        preexisting: true,
+        clock_small: true,
+        sampled_faults: false,
+        debris: false,
+        focus: 0,
+    };
+    let run = run_conc(tape, &cfg, ctx.detail);
+    let mut out = RunOut::default();
+    out.sig = run.sig;
+    out.steps = run.steps;
+    out.sim_ns = run.sim_ns;
+    out.count("concurrent_runs", 1);
+    let mut v: Option<Violation> = None;
+    let mut replaces = 0;
+    for r in run.results.iter() {
+        if let (Op::GetOrUpdate { action: Action::Replace, tag, .. }, Ok(Out::Hit { data, .. })) = (&r.op, &r.out) {
+            if !matches!(run.hspecs[r.handle], HandleSpec::Stack { .. }) {
+                continue;
+            }
+            replaces += 1;
+            let got = parse_value(data).filter(|(k, _)| *k == run.keys[r.key].name).map(|x| x.1);
+            // (on a miss the judge is never consulted: that is the put path,
+            // where the winner's value is legitimately returned)
+            if r.judge_saw.is_some() && r.populate_called && got != Some(*tag) && v.is_none() {
+                v = Some(Violation::new("replace-result", format!("get_or_update judged Replace and populated value #{}, but returned {}: {}", tag, describe_bytes(data), r.short())));
+            }
+        }
+    }
+    out.count("replace_operations", replaces);
+    out.nontrivial = replaces > 0;
+    if let Some(mut v) = v {
+        v.detail = describe(&run, 200);
+        out.violation = Some(v);
+    }
+    if ctx.detail {
+        out.sample = Some(crate::json::J::obj().set("mode", "concurrent ride-along").set("scenario", run.desc.clone()));
+    }
+    out
+}
+
 pub struct C14;
 impl Check for C14 {
     fn id(&self) -> &'static str {
         "C14"
     }
     fn rule(&self) -> String {
-        format!("the full matrix of {} points = stacks of 1-3 levels (write side optional, levels plain or sharded) x each level in {{absent, A, B}} x operation {{get, ensure, get_or_update x actions}} x populate in {{A, B, NotFound, Other error}} x checker {{none, byte equality (recording argument inodes), panicking}}; oracle: success iff all present copies (and the populated value when it is compared) are identical, checker errors and panics reach the caller, the recorded comparisons connect every present copy to the returned one, and with no checker later read-only levels are never opened. Every point is non-trivial; distinct = matrix point", n14())
+        format!("the full matrix of {} points = stacks of 1-3 levels (write side optional, levels plain or sharded) x each level in {{absent, A, B}} x operation {{get, ensure, get_or_update x actions}} x populate in {{A, B, NotFound, Other error}} x checker {{none, byte equality (recording argument inodes), panicking}}; oracle: success iff all present copies (and the populated value when it is compared) are identical, checker errors and panics reach the caller, the recorded comparisons connect every present copy to the returned one, and with no checker later read-only levels are never opened; in a quarter of the runs the creation of the scratch file used for the populate comparison fails with ENOENT (directory vanished), which must surface as an error and not be taken for the populate function's NotFound; in a quarter of all matrix runs futimens fails with EPERM (reader does not own the files). Every point is non-trivial; distinct = matrix point", n14())
     }
     fn runs(&self, tier: Tier) -> u64 {
         match tier {
@@ -94,7 +159,11 @@ impl Check for C14 {
         true
     }
     fn run(&self, tape: &mut Tape, ctx: &RunCtx) -> RunOut {
-        let pt = point14(ctx.index % n14());
+        let mut pt = point14(ctx.index % n14());
+        // fault dimension: the scratch file for the comparison cannot be
+        // created (its directory vanished: ENOENT) -- that is not "the
+        // populate function reports NotFound"
+        pt.fault_scratch = tape.draw(4) == 3;
         to_runout(run_point(tape, &pt, ctx.detail), &["c14"], ctx.detail)
     }
     fn assumptions(&self) -> Vec<String> {
